@@ -8,6 +8,8 @@ import typing_h as T
 TABLES = ["Kits"]
 LAKE_TARGETS = ["Moclo.Props.C17", "Moclo.Tables.Kits"]
 THEOREMS = ["Moclo.C17." + t for t in ["isValid_false_iff", "isValid_true_iff", "accessors_raise_invalid", "assemble_errors_documented"]]
+# reductions under which a failing case stays a case of this property (see shrink.py)
+SHRINK = {"strings": True}
 RULE = ("all 85 concrete kit classes and generic classes over every supported enzyme x a malformed stream (random "
         "letters over the 15-letter IUPAC alphabet in both cases, length >= 1, records shorter than the structure, "
         "single-letter corruptions of structure instances, near-misses of other kits' structures); is_valid() must "
